@@ -509,3 +509,18 @@ package main
 //@ func (h *Hub) topicGet(name string) (t *Topic)
 //@   trusted
 //@   modifies nothing
+
+// C13: when a topic fails to load, every queued request is answered to the session that sent it, with its own id.
+//@ func topicInit(t *Topic, join *ClientComMessage, h *Hub)
+//@   requires [C13] t != nil && join != nil && h != nil && join.sess != nil && t.perUser != nil
+//@   requires [C13,assumed] p2p_from_sub: (hasPrefix(t.xoriginal, "usr") || hasPrefix(t.xoriginal, "p2p")) ==> join.Sub != nil
+//@   modifies *
+//@   assert at call Session.queueOut#1 [C13] failure_to_requester: $0 == join.sess && $1 != nil && $1.Ctrl != nil && $1.Ctrl.Id == join.Id
+//@   assert at call Session.queueOut#2 [C13] pending_to_sender: $0 == msg.sess && $1 != nil && $1.Ctrl != nil && $1.Ctrl.Id == msg.Id
+//@   assert at call Session.queueOut#3 [C13] unreg_to_sender: $0 == msg.sess && $1 != nil && $1.Ctrl != nil && $1.Ctrl.Id == msg.Id
+//@   assert at call Session.queueOut#4 [C13] meta_to_sender: $0 == msg.sess && $1 != nil && $1.Ctrl != nil && $1.Ctrl.Id == msg.Id
+
+// Store errors are turned into a {ctrl} reply that carries the id of the request.
+//@ func decodeStoreErrorExplicitTs(err error, id string, topic string, serverTs time.Time, incomingReqTs time.Time, params map[string]any) (res *ServerComMessage)
+//@   modifies inferred
+//@   ensures [C13] echoes_id: res != nil && res.Ctrl != nil && res.Ctrl.Id == id
